@@ -9,7 +9,7 @@
 From Coq Require Import List ZArith Bool String.
 From GoHls Require Import Lib.MuxSched Model.MuxConcSeq Model.MuxConcSpec Model.MuxConcPar
   Proofs.MuxConcSeqA Proofs.MuxConcInvA Proofs.MuxConcInvB Proofs.MuxConcInvC Proofs.MuxConcInvD
-  Proofs.MuxConcProg Proofs.MuxConcMain Proofs.MuxConcFiles
+  Proofs.MuxConcProg Proofs.MuxConcMain Proofs.MuxConcAll Proofs.MuxConcFiles
   Model.MuxConcSkelIR Model.MuxConcSkelExp Generated.MuxConcSkel.
 Import ListNotations.
 Local Open Scope Z_scope.
@@ -81,11 +81,17 @@ Theorem c07_waiters_non200 : forall c i r f,
 Proof. exact woken_terminates_after_close. Qed.
 Print Assumptions c07_waiters_non200.
 
-(* the hypothesis hint_prop holds in every reachable state of a Low-Latency muxer *)
-Theorem c07_hint_prop_reachable : forall m prog reqs sched,
-  m_variant m = LL -> paths_ok m -> hint_prop (c_mux (crun (cinit m prog reqs) sched)).
-Proof. exact hint_prop_reachable. Qed.
-Print Assumptions c07_hint_prop_reachable.
+(* the hypothesis hint_prop of the two theorems above holds in every reachable state of EVERY
+   variant (Low-Latency: path-table invariant; fMP4 / MPEG-TS: no part path is ever registered),
+   so they are instantiated for all three variants; the initial table of a started muxer is ok *)
+Theorem c07_hint_prop_reachable_all_variants : forall m prog reqs sched,
+  table_ok m -> hint_prop (c_mux (crun (cinit m prog reqs) sched)).
+Proof. exact hint_prop_reachable_all_variants. Qed.
+Print Assumptions c07_hint_prop_reachable_all_variants.
+
+Theorem c07_initial_table_ok : forall v sc n lead, table_ok (mux_init v sc n lead).
+Proof. exact init_table_ok. Qed.
+Print Assumptions c07_initial_table_ok.
 
 (* every segment file has been removed when Close returns *)
 Theorem c07_files_removed : forall m prog reqs sched,
